@@ -337,6 +337,47 @@ func scenarioC02(r *Run) {
 			}
 		}
 	}
+	// a relay that re-signs a received COSE_Sign: it decodes, empties the
+	// signature slots and signs again with its own keys.  What each signer is
+	// handed must be the Sig_structure of the message as it is emitted
+	// afterwards - over the received (retained) body protected bytes.
+	if rc.MS != nil && rc.Payload() != nil && t.Bool(1, 3, "c02.resign") {
+		if rc2, derr := r.Decode(spec.Kind, received); derr == nil && rc2.MS != nil && len(rc2.MS.Signatures) == len(spies) {
+			if override != nil {
+				rc2.SetPayload(override)
+			}
+			keys := keysOf(spec)
+			var rs []*SpySigner
+			signers := make([]cose.Signer, len(rc2.MS.Signatures))
+			for i, sg := range rc2.MS.Signatures {
+				sg.Signature = nil
+				k := keys[i%len(keys)]
+				sp := &SpySigner{Inner: r.signerFor(k, false), Alg: spies[i].Alg}
+				rs = append(rs, sp)
+				signers[i] = sp
+			}
+			var serr error
+			r.Lib(func() { serr = rc2.MS.Sign(NewEntropy(9), external, signers...) })
+			if serr == nil {
+				var out []byte
+				var merr error
+				r.Lib(func() { out, merr = rc2.MS.MarshalCBOR() })
+				if merr == nil {
+					if want2, _, perr2 := refContents(spec.Kind, out, external, nil); perr2 == nil {
+						r.Check()
+						for i, sp := range rs {
+							if len(sp.Calls) == 1 && i < len(want2) && !bytes.Equal(sp.Calls[0].Content, want2[i]) {
+								r.Fail("sign-content-differs/"+spec.Kind.String()+"/re-signed-after-decode",
+									"a decoded COSE_Sign was signed again: signer %d was handed a Sig_structure that is not the one of the message as emitted afterwards\n got: %s\nwant: %s\nreceived: %s", i, hexShort(sp.Calls[0].Content), hexShort(want2[i]), hexShort(received))
+								return
+							}
+						}
+						r.Probe("re-signed-decoded-cose-sign-compared")
+					}
+				}
+			}
+		}
+	}
 	// a verifier that says no is final: it is consulted once, with the
 	// reference content, and its refusal is what Verify returns
 	{
